@@ -13,6 +13,7 @@ from hypothesis import strategies as st
 import common
 import farm
 import farmcheck
+import zoo
 import build
 import expgen
 import exprender
@@ -33,7 +34,9 @@ RULE = ("Hypothesis draws an EXPRESS schema (codegen profile: simple/defined/enu
 NONTRIV = {"aggregate>=2", "nested-aggregate", "typed-select", "complex-instance", "string-escape", "real-exponent",
            "forward-ref", "star"}
 
-SCHEMA_CFG = {"p_redecl": 45, "attr_weights": {"simple": 30, "defined": 10, "enum": 8, "select": 17, "entity": 15, "agg": 20}}
+SCHEMA_CFG = {"p_redecl": 45, "p_select_alias_pair": 60, "p_nested_select": 60, "min_typ": 3, "max_typ": 12,
+              "type_weights": {"simple": 20, "alias": 18, "enum": 14, "enum_alias": 6, "agg": 12, "select": 30},
+              "attr_weights": {"simple": 30, "defined": 10, "enum": 8, "select": 17, "entity": 15, "agg": 20}}
 
 _TS = re.compile(r"(FILE_NAME\s*\(\s*'(?:[^']|'')*'\s*,\s*)'[^']*'")
 
@@ -190,7 +193,7 @@ def main(tier, seed):
         case_fn=case,
         confirm_fn=lambda lib, f, wd: bool(oracle(lib, f["pop"], f["text"], wd, "confirm")),
         replay_files=lambda f: {"input.p21": f["text"], "pop.json": json.dumps(f["pop"])},
-        schema_cfg=SCHEMA_CFG)
+        schema_cfg=SCHEMA_CFG, extra_schemas=[zoo.ZOO])
 
 
 def replay(path):
